@@ -182,7 +182,12 @@ func (x *Exec) checkSinks(e *ast.CallExpr, st *State, calleeShort string, args [
 			classes = append(classes, w)
 			sk2 := st.clone()
 			sk2.add(w)
+			savedProps := x.curProps
+			if len(sk.C.Props) > 0 {
+				x.curProps = sk.C.Props
+			}
 			o := x.oblige(sk2, "sink", name+".kf."+kf.ID, label, g, e.Pos())
+			x.curProps = savedProps
 			o.MustFail = true
 			o.KF = kf.ID
 		}
